@@ -1,4 +1,5 @@
 import LyModel.Props.C15
+import LyModel.Props.C15Typed
 #print axioms LyModel.Props.C15.path_buffer_in_bounds
 #print axioms LyModel.Props.C15.static_buffer_terminated_fails
 #print axioms LyModel.Props.C15.static_buffer_terminated_fixed
@@ -14,3 +15,13 @@ import LyModel.Props.C15
 #print axioms LyModel.Props.C15.static_buffer_terminated_iff_source
 #print axioms LyModel.Props.C15.au_chainOK
 #print axioms LyModel.Props.C15.ex_chainOK
+#print axioms LyModel.Props.C15Typed.typed_canon_idempotent
+#print axioms LyModel.Props.C15Typed.union_canon_idem_fails
+#print axioms LyModel.Props.C15Typed.path_identifies_typed_fails
+#print axioms LyModel.Props.C15Typed.path_identifies_typed_partial
+#print axioms LyModel.Props.C15Typed.new_path_typed_canonical
+#print axioms LyModel.Props.C15Typed.predicate_key_names_exact
+#print axioms LyModel.Props.C15Typed.key_order_free
+#print axioms LyModel.Props.C15Typed.af_chainOK
+#print axioms LyModel.Props.C15Typed.af_valuesOK
+#print axioms LyModel.Props.C15Typed.f460_chainOK
